@@ -87,6 +87,27 @@ impl Prop for C06 {
                 push(st);
             }
         }
+        // UCS-2 strings (not in the stray-01 form) whose first byte is 01: Cyrillic Ё, the ideographic comma, the full-width exclamation mark
+        for (i, first) in ['\u{0401}', '\u{3001}', '\u{FF01}', '\u{0101}'].into_iter().enumerate() {
+            for place in 0 .. 3 {
+                let mut st = base_state(700 + i as u64);
+                let mut pieces = vec![Piece::Ch(first)];
+                pieces.extend("lka".chars().map(Piece::Ch));
+                let u = UStr { pieces, enc: Enc::Ucs2 { stray01: false }, alt_empty: false };
+                match place {
+                    0 => st.name = u,
+                    1 => st.map = u,
+                    _ => {
+                        if let Some(p) = st.players.first_mut() {
+                            p.name = u;
+                        } else {
+                            st.game_type = u;
+                        }
+                    }
+                }
+                push(st);
+            }
+        }
         // UCS-2 strings whose first bytes look like a byte-order mark
         for (i, first) in ['\u{FEFF}', '\u{FFFE}', '\u{BBEF}'].into_iter().enumerate() {
             for stray01 in [false, true] {
@@ -152,6 +173,16 @@ impl Prop for C06 {
         let server = U2Server::from_state(st);
         let run = run_scripted(Box::new(server), || unreal2::query(&addr, &gather, None));
         o.failure = expect_equal("C06", "unreal2::query", &run, &st.expected(), &[".rules", ".mutators"]);
+        // a UCS-2 string that is NOT in the stray-01 form but whose first byte is 01 (U+0101, U+0401, U+3001, U+FF01 ... first): the client
+        // takes the byte for the stray 01 some games insert. The class has its own signature (it is a known finding, see DESIGN §8).
+        let leading_01 = strings.iter().any(|s| matches!(s.enc, Enc::Ucs2 { stray01: false }) && s.first_unit().map(|u| u & 0xFF == 1).unwrap_or(false));
+        if leading_01 {
+            o.label("ucs2-leading-byte-01");
+            if o.failure.is_some() {
+                let detail = o.failure.take().map(|f| f.detail).unwrap_or_default();
+                o.fail("C06|unreal2::query|UCS-2 string beginning with a byte 01 is read as the stray-01 form", detail);
+            }
+        }
         // (the client waits one read timeout for the end of the rule list: a small sample, short timeouts)
         if o.failure.is_none() && crate::runner::digest(format!("{:?}", st.name).as_bytes()) % 400 == 0 {
             let st2 = st.clone();
